@@ -2,6 +2,7 @@ import Model.Req
 import Model.ReqFacts
 import Model.ReqSite
 import Model.ReqLimit
+import Model.ReqReg
 import Spec.Req
 import Generated.C11Superglobals
 import Drivers.Common
@@ -28,6 +29,11 @@ import Drivers.Common
      outermost first, as indices into the callee list, space separated; its program is
      enter… gate leave… write; turn as above
     → per request  ok | fail:<reported depth> | running   joined by `;`
+  reg <TAB> <gen|id|shared> <TAB> <req>;<req>;… <TAB> <turn>,<turn>,…
+     `Model.ReqReg`: key function `gen` = from the regenerated registry facts (`keyOf facts`), `id` = the request's
+     identity, `shared` = one key for everybody; req = space separated steps  a.<reg>.<val> (Store) · n.<reg>.<val>
+     (LoadOrStore) · l.<reg> (Load, observed) · d.<reg> (Delete) · gate · write; turn as above
+    → per request everything it observed, in order  <v>,<v>,…  joined by `;`   (`~` = no entry)
   facts                                   → summary of the regenerated facts
 -/
 open Model.Req
@@ -181,9 +187,40 @@ def handleLimit (cfg : String) (callees : String) (reqs : String) (turns : Strin
       | .running => "running")
   | _, _ => "bad-req"
 
+def parseRegStep (s : String) : Option Model.ReqReg.Step :=
+  match s.splitOn "." with
+  | ["a", g, v] => do some (.attach (← g.toNat?) (← v.toNat?))
+  | ["n", g, v] => do some (.attachNew (← g.toNat?) (← v.toNat?))
+  | ["l", g] => do some (.lookup (← g.toNat?))
+  | ["d", g] => do some (.detach (← g.toNat?))
+  | ["gate"] => some .gate
+  | ["write"] => some .write
+  | _ => none
+
+def regSegments : List Model.ReqReg.Step → List Nat → Nat → List Nat
+  | [], acc, cur => (if cur = 0 then acc else cur :: acc).reverse
+  | .gate :: rest, acc, cur => regSegments rest ((cur + 1) :: acc) 0
+  | _ :: rest, acc, cur => regSegments rest acc (cur + 1)
+
+def handleReg (cfg : String) (reqs : String) (turns : String) : String :=
+  let key : Option (Nat → Model.ReqReg.Key) :=
+    if cfg == "gen" then some (Model.ReqReg.keyOf Generated.C11Superglobals.facts)
+    else if cfg == "id" then some id
+    else if cfg == "shared" then some (fun _ => 0) else none
+  let progs : Option (List (List Model.ReqReg.Step)) := (reqs.splitOn ";").mapM fun r =>
+    if r.isEmpty then some [] else (r.splitOn " ").mapM parseRegStep
+  match key, progs, (if turns.isEmpty then some [] else (turns.splitOn ",").mapM String.toNat?) with
+  | some key, some progs, some turns =>
+    let w : Model.ReqReg.World := { key := key, prog := fun r => progs.getD r [] }
+    let sched := expand (progs.map fun p => regSegments p [] 0) turns
+    let s := Model.ReqReg.run w (Model.ReqReg.init w) sched
+    ";".intercalate ((List.range progs.length).map fun r => showObs ((s.req r).body ++ (s.req r).pending))
+  | _, _, _ => "bad-reg"
+
 def handle (line : String) : String :=
   match line.splitOn "\t" with
   | ["limit", cfg, callees, reqs, turns] => handleLimit cfg callees reqs turns
+  | ["reg", cfg, reqs, turns] => handleReg cfg reqs turns
   | ["site", scope, ds, turns] => handleSite scope ds turns
   | ["sched", cfg, reqs, turns] =>
     match parseCfg cfg with
@@ -206,7 +243,7 @@ def handle (line : String) : String :=
   | ["facts"] =>
     let f := Generated.C11Superglobals.facts
     let sc := String.ofList (Kind.all.map fun k => if f.scope k = .perRequest then 'R' else 'P')
-    s!"scope={sc} handlerResets={f.handlerResets} outer={f.outer} violations={f.violations.length} entryViolations={f.entryViolations.length} nodeWrites={f.nodeWrites.length} nodeWriteViolations={f.nodeWriteViolations} depthGuards={f.depthGuards.map (fun d => s!"{d.fn}:{d.counter}:{d.limit}:{d.decidesOn}:{d.ownLimit}")} guardViolations={f.guardViolations} limits={",".intercalate (f.limits.map toString)}"
+    s!"scope={sc} handlerResets={f.handlerResets} outer={f.outer} violations={f.violations.length} entryViolations={f.entryViolations.length} nodeWrites={f.nodeWrites.length} nodeWriteViolations={f.nodeWriteViolations} depthGuards={f.depthGuards.map (fun d => s!"{d.fn}:{d.counter}:{d.limit}:{d.decidesOn}:{d.ownLimit}")} guardViolations={f.guardViolations} registrySites={f.registries.length} registryViolations={f.registryViolations} limits={",".intercalate (f.limits.map toString)}"
   | _ => "bad-op"
 
 def main : IO Unit := Drivers.runDriver handle
